@@ -19,3 +19,4 @@ func TestMain(m *testing.M) {
 func TestC09(t *testing.T) { simkit.Main(t, HarnessC09) }
 func TestC10(t *testing.T) { simkit.Main(t, HarnessC10) }
 func TestC11(t *testing.T) { simkit.Main(t, HarnessC11) }
+func TestC06(t *testing.T) { simkit.Main(t, HarnessC06) }
